@@ -4,8 +4,11 @@ import (
 	"embed"
 	"fmt"
 	"go/token"
+	"regexp"
 	"sort"
 	"strings"
+
+	"golang.org/x/tools/go/ssa"
 )
 
 // Reference automata. The rules above argue the properties on the automata extracted from the pinned tree; this
@@ -64,6 +67,26 @@ func fsmSignature(r *fsmResult) []string {
 		}
 		return out.String()
 	}
+	// roles of the loop-carried locals: position among the integer / boolean phis of the loop head (source order
+	// of the declarations), so that a renamed local keeps its role
+	localRole := map[string]string{}
+	if r.head != nil {
+		n := 0
+		for _, ins := range r.head.Instrs {
+			ph, ok := ins.(*ssa.Phi)
+			if !ok {
+				break
+			}
+			nm := phiName(ph)
+			if nm == "" || nm == "i" {
+				continue
+			}
+			if _, dup := localRole[nm]; !dup {
+				n++
+				localRole[nm] = fmt.Sprintf("v%d", n)
+			}
+		}
+	}
 	type row struct {
 		key   string
 		bytes *ByteSet
@@ -109,7 +132,20 @@ func fsmSignature(r *fsmResult) []string {
 		if post {
 			kind = "exhausted " + kind
 		}
-		k := fmt.Sprintf("%s | %s -> %s | i:%s | calls=%s | stores=%s", r.name(t.From), kind, to, idx, strings.Join(calls, " "), strings.Join(stores, " "))
+		// the conditions on loop-carried locals, object fields and option bits that select this row, in a
+		// canonical form (one polarity, one relation per test; byte tests are in the byte class instead)
+		var conds []string
+		if !coarseArgs {
+			seenC := map[string]bool{}
+			for _, cd := range t.Conds {
+				if cc := canonCond(cd, localRole); cc != "" && !seenC[cc] {
+					seenC[cc] = true
+					conds = append(conds, cc)
+				}
+			}
+			sort.Strings(conds)
+		}
+		k := fmt.Sprintf("%s | %s -> %s | i:%s | calls=%s | stores=%s | when=%s", r.name(t.From), kind, to, idx, strings.Join(calls, " "), strings.Join(stores, " "), strings.Join(conds, " "))
 		if rw, ok := rows[k]; ok {
 			if t.Bytes != nil {
 				rw.bytes = rw.bytes.union(t.Bytes)
@@ -282,4 +318,93 @@ func pathSignature(c *Ctx, fn, prefix string) []string {
 	coarseArgs = true
 	defer func() { coarseArgs = false }()
 	return fsmSignature(res)
+}
+
+var condRe = regexp.MustCompile(`^\+?(.+?)(==|!=|<=|>=|<|>)\+?(.+)$`)
+
+// canonCond: a recorded branch condition in canonical form "subject rel constant : T|F", or "" for tests that are
+// represented elsewhere (byte tests) or that do not compare with a constant.
+func canonCond(cd string, role map[string]string) string {
+	truth := true
+	for strings.HasPrefix(cd, "!") {
+		cd = cd[1:]
+		truth = !truth
+	}
+	if strings.Contains(cd, "buf[*]") {
+		return ""
+	}
+	subj, rel, k := cd, "=", "true"
+	if m := condRe.FindStringSubmatch(cd); m != nil {
+		subj, k = m[1], m[3]
+		switch m[2] {
+		case "==":
+			rel = "="
+		case "!=":
+			rel, truth = "=", !truth
+		case ">":
+			rel = ">"
+		case "<=":
+			rel, truth = ">", !truth
+		case ">=":
+			rel = ">="
+		case "<":
+			rel, truth = ">=", !truth
+		}
+	}
+	if k == "false" {
+		k, truth = "true", !truth
+	}
+	// the subject: a local by role, a field path without its variable, a callee result as it is
+	subj = strings.TrimPrefix(subj, "+")
+	if rname, ok := role[subj]; ok {
+		subj = rname
+	} else if i := strings.Index(subj, "."); i > 0 && !strings.Contains(subj[:i], "(") {
+		subj = "_" + subj[i:]
+	} else if !strings.Contains(subj, "(") {
+		// a parameter or a local that is not loop-carried: abstract
+		if _, isNum := strconvAtoi(subj); !isNum {
+			subj = "_"
+		}
+	}
+	// constants only on the right-hand side
+	if _, isNum := strconvAtoi(k); !isNum && k != "true" {
+		if rname, ok := role[strings.TrimPrefix(k, "+")]; ok {
+			k = rname
+		} else {
+			k = "_"
+		}
+	}
+	// only tests of a loop-carried local, an object field or an option mask against a constant are part of the row;
+	// comparisons between positions are the index-guard rules' business and are spelled in too many ways
+	isRole := false
+	for _, rn := range role {
+		if subj == rn {
+			isRole = true
+		}
+	}
+	if !(isRole || strings.HasPrefix(subj, "_.") || strings.HasPrefix(subj, "(flags&") || strings.HasPrefix(subj, "(_&")) {
+		return ""
+	}
+	if _, isNum := strconvAtoi(k); !isNum && k != "true" {
+		return ""
+	}
+	t := "T"
+	if !truth {
+		t = "F"
+	}
+	return subj + rel + k + ":" + t
+}
+
+func strconvAtoi(s string) (int, bool) {
+	n := 0
+	if s == "" {
+		return 0, false
+	}
+	for _, ch := range s {
+		if ch < '0' || ch > '9' {
+			return 0, false
+		}
+		n = n*10 + int(ch-'0')
+	}
+	return n, true
 }
